@@ -6,6 +6,7 @@ package template
 
 import (
 	"fmt"
+	"html"
 	"regexp"
 	"strings"
 )
@@ -128,9 +129,11 @@ func sanitizersForAttributeValue(c context) ([]string, error) {
 		// to prevent the injection of any new path segments or URL components. Moreover, they must
 		// not contain any ".." dot-segments.
 		ret = append(ret, queryEscapeURLFuncName, validateTrustedResourceURLSubstitutionFuncName)
-	case strings.ContainsAny(urlAttrValPrefix, "#?"):
+	case strings.ContainsAny(html.UnescapeString(urlAttrValPrefix), "#?"):
 		// For URLs, we only escape in the query or fragment part to prevent the injection of new query
-		// parameters or fragments.
+		// parameters or fragments. The decision is taken on the prefix as the browser will see it,
+		// i.e. after HTML-unescaping: "&quest;" and "&num;" start a query or fragment, while the '#' of
+		// a numeric character reference such as "&#47;" does not.
 		ret = append(ret, queryEscapeURLFuncName)
 	default:
 		ret = append(ret, normalizeURLFuncName)
